@@ -535,8 +535,11 @@ bool XMLReader::refreshCharBuffer()
     // See if we have any existing chars.
     const XMLSize_t spareChars = fCharsAvail - fCharIndex;
 
-    // If we are full, then don't do anything.
-    if (spareChars == kCharBufSize)
+    //  If we are full, then don't do anything. A buffer with a single free
+    //  slot counts as full: a character that needs two slots (surrogate pair)
+    //  could not be stored, and "no progress" would be mistaken for the end
+    //  of the input (or for a truncated multi-byte sequence).
+    if (spareChars + 1 >= kCharBufSize)
         return true;
 
     //
@@ -1242,7 +1245,9 @@ bool XMLReader::skippedStringLong(const XMLCh* toSkip)
     {
       // Fill up the buffer with as much data as possible.
       //
-      while (charsLeft < srcLen && charsLeft != kCharBufSize)
+      //  (a buffer with one free slot is as full as it gets, see
+      //  refreshCharBuffer: compare what we have and go on)
+      while (charsLeft < srcLen && charsLeft + 1 < kCharBufSize)
       {
         if (!refreshCharBuffer())
           return false;
